@@ -260,7 +260,8 @@ def run_check(modname, tier, seed, replay=None):
         if kf.get("property") == pid and known_hits.get(kf["id"]):
             print(f"KNOWN-FINDING: property={pid} {kf['text']} "
                   f"[{known_hits[kf['id']]} explored cases]")
-    os.makedirs(os.path.join(VERIF, "replays"), exist_ok=True)
+    repdir = os.path.join(os.environ.get("LBV_EVIDENCE_DIR") or VERIF, "replays")
+    os.makedirs(repdir, exist_ok=True)
     seen = set()
     nrep = 0
     for case, v in violations:
@@ -271,7 +272,7 @@ def run_check(modname, tier, seed, replay=None):
             break
         seen.add(key)
         nrep += 1
-        path = os.path.join(VERIF, "replays", f"{pid}-{case_hash(case)}.json")
+        path = os.path.join(repdir, f"{pid}-{case_hash(case)}.json")
         with open(path, "w") as fh:
             json.dump(dict(property=pid, case=jsonable(case), violation=v), fh, indent=1)
         print(f"VIOLATION property={pid} replay={path}")
@@ -306,8 +307,9 @@ def run_check(modname, tier, seed, replay=None):
     ev = dict(property_id=pid, tier=tier, seed=int(seed), level=mod.LEVEL, coverage=cov,
               assumptions=list(mod.ASSUMPTIONS), wall_s=round(time.time() - t0, 2),
               violations=len(violations))
-    os.makedirs(os.path.join(VERIF, "evidence"), exist_ok=True)
-    with open(os.path.join(VERIF, "evidence", f"{pid}.json"), "w") as fh:
+    evdir = os.environ.get("LBV_EVIDENCE_DIR") or os.path.join(VERIF, "evidence")
+    os.makedirs(evdir, exist_ok=True)
+    with open(os.path.join(evdir, f"{pid}.json"), "w") as fh:
         json.dump(ev, fh, indent=1)
     print(f"{pid} tier={tier} seed={seed} executions={agg['evaluations']} "
           f"nontrivial={len(agg['nontrivial'])} outcomes={len(agg['outcomes'])} "
